@@ -2,117 +2,28 @@
   Driver.lean — line-protocol driver over the executable model (compiled as `pdt-driver`).
   One JSON object per input line: {"op": <name>, ...args}; one JSON value per output line.
   Unknown op / malformed arguments answer {"error": ...} — never a default value.
+  Op handlers live in Drv/*.lean, one file per model layer.
 -/
-import Lean.Data.Json
-import PdtModel.Model.Text
-import PdtModel.Model.Cell
-import PdtModel.Model.Marker
-import PdtModel.Model.Segment
-open Lean Pdt
+import Drv.Base
+import Drv.Segment
+import Drv.Bundle
+open Lean
 
-namespace Drv
+def handlers : List (String → Json → Option (Except String Json)) :=
+  [Drv.handleSegment, Drv.handleBundle]
 
-def str (s : Str) : Json := Json.str (String.ofList s)
-
-def cellToJson : Cell → Json
-  | .none => Json.null
-  | .str s => str s
-  | .bool b => Json.bool b
-  | .int i => Json.mkObj [("i", Json.num (JsonNumber.fromInt i))]
-  | .float t => Json.mkObj [("f", str t)]
-  | .dt t => Json.mkObj [("d", str t)]
-  | .other t => Json.mkObj [("o", str t)]
-
-def cellOfJson (j : Json) : Except String Cell :=
-  match j with
-  | .null => pure .none
-  | .str s => pure (.str s.toList)
-  | .bool b => pure (.bool b)
-  | .obj _ =>
-    match j.getObjVal? "i" with
-    | .ok v => do let i ← v.getInt?; pure (.int i)
-    | .error _ =>
-    match j.getObjVal? "f" with
-    | .ok v => do let s ← v.getStr?; pure (.float s.toList)
-    | .error _ =>
-    match j.getObjVal? "d" with
-    | .ok v => do let s ← v.getStr?; pure (.dt s.toList)
-    | .error _ =>
-    match j.getObjVal? "o" with
-    | .ok v => do let s ← v.getStr?; pure (.other s.toList)
-    | .error _ => throw "bad cell object"
-  | _ => throw "bad cell"
-
-def rowOfJson (j : Json) : Except String Row := do
-  let a ← j.getArr?
-  a.toList.mapM cellOfJson
-
-def rowsOfJson (j : Json) : Except String (List Row) := do
-  let a ← j.getArr?
-  a.toList.mapM rowOfJson
-
-def rowToJson (r : Row) : Json := Json.arr (r.map cellToJson).toArray
-
-def markerToJson : Option Marker → Json
-  | none => Json.null
-  | some .table => "table"
-  | some .directive => "directive"
-  | some .template => "template"
-  | some .metadata => "metadata"
-
-def btToJson : BT → Json
-  | .directive => "DIRECTIVE"
-  | .table => "TABLE"
-  | .template => "TEMPLATE_ROW"
-  | .metadata => "METADATA"
-  | .blank => "BLANK"
-
-def blockToJson (b : Block Row) : Json :=
-  Json.mkObj [("ty", btToJson b.ty), ("first", Json.num (JsonNumber.fromNat b.first)),
-              ("rows", Json.arr (b.rows.map rowToJson).toArray)]
-
-def getStr (j : Json) (k : String) : Except String Str := do
-  let v ← j.getObjVal? k
-  let s ← v.getStr?
-  pure s.toList
-
-def getNat (j : Json) (k : String) : Except String Nat := do
-  let v ← j.getObjVal? k
-  v.getNat?
-
-/-- op dispatch -/
-def handle (j : Json) : Except String Json := do
+def dispatch (j : Json) : Except String Json := do
   let op ← (← j.getObjVal? "op").getStr?
-  match op with
-  | "classify" => do
-    let s ← getStr j "s"
-    pure (markerToJson (classify s))
-  | "isspace_range" => do
-    let lo ← getNat j "lo"
-    let hi ← getNat j "hi"
-    let xs := (List.range (hi - lo)).filterMap fun k =>
-      let n := lo + k
-      if isSpace (Char.ofNat n) then some (Json.num (JsonNumber.fromNat n)) else none
-    pure (Json.arr xs.toArray)
-  | "strip" => do
-    let s ← getStr j "s"
-    pure (str (strip s))
-  | "is_blank" => do
-    let c ← cellOfJson (← j.getObjVal? "c")
-    pure (Json.bool c.isBlank)
-  | "segment" => do
-    let rows ← rowsOfJson (← j.getObjVal? "rows")
-    pure (Json.arr ((segment rows).map blockToJson).toArray)
-  | _ => throw s!"unknown op {op}"
-
-end Drv
+  match handlers.findSome? (fun h => h op j) with
+  | some r => r
+  | none => throw s!"unknown op {op}"
 
 partial def loop (h : IO.FS.Stream) (out : IO.FS.Stream) : IO Unit := do
   let line ← h.getLine
   if line.isEmpty then return ()
   let res := match Json.parse line with
     | .error e => Json.mkObj [("error", Json.str s!"parse: {e}")]
-    | .ok j => match Drv.handle j with
+    | .ok j => match dispatch j with
       | .ok r => r
       | .error e => Json.mkObj [("error", Json.str e)]
   out.putStrLn res.compress
